@@ -95,6 +95,9 @@ class QueryPlanner:
 
     def get_predictor(self, identifier):
         name_parts = list(identifier.parts)
+        if not all(isinstance(part, str) for part in name_parts):
+            # e.g. tbl.* : not a model name
+            return None
 
         version = None
         if len(name_parts) > 1 and name_parts[-1].isdigit():
@@ -184,6 +187,9 @@ class QueryPlanner:
 
     def resolve_database_table(self, node: Identifier):
         # resolves integration name and table name
+
+        if not isinstance(node, Identifier):
+            raise PlanningException(f'Table name is expected, got: {node.__class__.__name__}')
 
         parts = node.parts.copy()
         alias = None
